@@ -156,7 +156,7 @@ fn c10_k1_eval_l5() {
     kani::cover!(n[0].is_op && n[1].is_op && n[0].end == 5 && n[1].end < 5, "nested operator followed by a sibling");
 }
 
-// @harness name=c10_k1_eval_l6 prop=C10 tier=thorough timeout=5400
+// @harness name=c10_k1_eval_l6 prop=C10 tier=quick timeout=2400
 // @encodes as c10_k1_eval_l4
 // @bounds every well-formed expression of exactly 6 opcodes over 3 keys, every truth assignment
 // @assumes as c10_k1_eval_l4
@@ -403,7 +403,8 @@ static VK_SW_A0: Action<'static, u8> = Action::KeyCode(KeyCode::Kb0);
 static VK_SW_A1: Action<'static, u8> = Action::KeyCode(KeyCode::Kb1);
 static VK_SW_A2: Action<'static, u8> = Action::KeyCode(KeyCode::Kb2);
 
-// @harness name=c10_k3_cases prop=C10 tier=thorough timeout=5400
+// @harness name=c10_k3_cases prop=PARKED tier=thorough timeout=5400
+// @note 3 cases / 4 next() calls did not finish within 25 min (20 GB); the 2-case version c10_k3_cases2 is registered
 // @encodes Switch::actions, SwitchActions::next
 // @bounds 3 cases: two guarded by one symbolic key leaf (3 keys), the last with the empty (always true) condition; symbolic break/fallthrough per case; every truth assignment to the keys
 // @assumes none
@@ -468,4 +469,42 @@ fn c10_k3_cases() {
     kani::cover!(nw == 3, "all three fall through");
     kani::cover!(nw == 1 && stopped, "break hides the always-true last case");
     kani::cover!(nw == 2 && !fires[0], "first case skipped");
+}
+
+// @harness name=c10_k3_cases2 prop=C10 tier=quick timeout=1800
+// @encodes Switch::actions, SwitchActions::next
+// @bounds 2 cases: the first guarded by the key a, the second with the empty (always true) condition; symbolic break/fallthrough on the first case; a down or up
+// @assumes none
+// @spec the iterator yields exactly the cases whose condition is true, top to bottom, and nothing after a firing case marked break; then None
+#[kani::proof]
+#[kani::unwind(4)]
+fn c10_k3_cases2() {
+    let a_down: bool = kani::any();
+    let keys: [KeyCode; 1] = [if a_down { KeyCode::A } else { KeyCode::Z }];
+    let e0 = [OpCode::new_key(KeyCode::A)];
+    let e1: [OpCode; 0] = [];
+    let brk0: bool = kani::any();
+    let cases: [Case<'_, u8>; 2] = [
+        (&e0, &VK_SW_A0, if brk0 { Break } else { Fallthrough }),
+        (&e1, &VK_SW_A1, Break),
+    ];
+    let sw = Switch { cases: &cases };
+    let mut it = sw.actions(keys.iter().copied(), [].iter().copied(), [].iter().copied(), [].iter().copied(), [].iter().copied(), 0);
+    let g0 = it.next();
+    let g1 = it.next();
+    let g2 = it.next();
+    if a_down {
+        assert!(matches!(g0, Some(a) if core::ptr::eq(a, &VK_SW_A0)), "the first true case fires first");
+        if brk0 {
+            assert!(g1.is_none(), "break stops the switch");
+        } else {
+            assert!(matches!(g1, Some(a) if core::ptr::eq(a, &VK_SW_A1)), "fallthrough continues with the next true case");
+            assert!(g2.is_none());
+        }
+    } else {
+        assert!(matches!(g0, Some(a) if core::ptr::eq(a, &VK_SW_A1)), "a false case is skipped");
+        assert!(g1.is_none() && g2.is_none());
+    }
+    kani::cover!(a_down && !brk0, "fallthrough");
+    kani::cover!(a_down && brk0, "break");
 }
